@@ -43,3 +43,5 @@ pub mod transport;
 pub mod codec;
 /// Hooks for the onion engine (failure-packet construction / attribution helpers).
 pub mod onion;
+/// Read-only view of the steps of a `ChannelMonitorUpdate`.
+pub mod monitor;
